@@ -12,7 +12,7 @@ LEVEL = 'other'
 
 def check_roles(cx, rep, funcs=None, floor=None, rule='audio-parameter role agreement (rate / width / channels never swapped)'):
     rc = RoleChecker(cx.model)
-    pairs = rc.run(['core', 'io', 'util', 'workers', 'cmdline', 'cmdline_util', 'signal'])
+    pairs = rc.run(cx.code_mods())
     n = 0
     for p in pairs:
         if funcs is not None and not funcs(p):
@@ -22,7 +22,7 @@ def check_roles(cx, rep, funcs=None, floor=None, rule='audio-parameter role agre
                'in %s, %s: %s (role %s) is handed to %s (role %s)' % (p['func'], p['kind'], p['giver'], p['role_g'], p['receiver'], p['role_r']),
                sample=dict(site=p['where'], func=p['func'], kind=p['kind'], giver=p['giver'], receiver=p['receiver'], role=p['role_g']))
     # argument selection: a parameter forwarded to a callee that has a parameter of the same name goes to THAT parameter
-    for r in rc.crossed_forwarding(['core', 'io', 'util', 'workers', 'cmdline', 'cmdline_util', 'signal']):
+    for r in rc.crossed_forwarding(cx.code_mods()):
         p = dict(func=r['func'], where=r['where'], kind='forwarding to %s' % r['callee'], giver=r['given'], receiver=r['param'])
         if funcs is not None and not funcs(p):
             continue
